@@ -52,7 +52,7 @@ structure EInvA (s : State) (r : Ref) : Prop where
 
 /-- what a thread's program counter says about the entry it refers to -/
 def TInvA (s : State) (t : Tid) (th : Thread) : Prop :=
-  (∀ r ∈ th.todo, r < s.nHeap ∧ (th.op = .gc → (s.heap r).st ≠ .loading)) ∧
+  (∀ r ∈ th.todo, r < s.nHeap ∧ (th.op ≠ .close → (s.heap r).st ≠ .loading)) ∧
   match th.pc with
   | .getWaitClose r true | .loadBegin r =>
     r < s.nHeap ∧ (s.heap r).loader = some t ∧ (s.heap r).st = .loading ∧ (s.heap r).pending = none ∧
@@ -75,6 +75,7 @@ def TInvA (s : State) (t : Tid) (th : Thread) : Prop :=
     r < s.nHeap ∧ (s.heap r).closer = some t ∧ (s.heap r).st = .closing ∧ (s.heap r).value = some i
   | .trySetClosing r => r < s.nHeap ∧ (s.heap r).st ≠ .loading
   | .done res => res ≠ .panic
+  | .closeCollect => th.op = .close
   | _ => True
 
 structure InvA (s : State) : Prop where
